@@ -179,11 +179,14 @@ pub struct ExecEnv {
     pub mem_cap: u64,
     /// Live fork servers of this process, keyed by (program, argc).
     pub forks: std::cell::RefCell<Vec<ForkServer>>,
+    /// Fallback only: mask the thread id in Rust runtime banners instead of owning it through the
+    /// gettid seam (set when the canary finds that seam dead).
+    pub mask_tid: bool,
 }
 
 impl ExecEnv {
     pub fn new(gram: PathBuf, shim: PathBuf, cap: Duration, mem_cap: u64) -> ExecEnv {
-        ExecEnv { gram, shim, cap, mem_cap, forks: std::cell::RefCell::new(vec![]) }
+        ExecEnv { gram, shim, cap, mem_cap, forks: std::cell::RefCell::new(vec![]), mask_tid: false }
     }
 }
 
@@ -376,7 +379,8 @@ pub fn launch_forked(
         }
     };
     let stdout = fs::read(&out_path).unwrap_or_default();
-    let stderr = mask_tid(&fs::read(&err_path).unwrap_or_default());
+    let raw_err = fs::read(&err_path).unwrap_or_default();
+    let stderr = if env.mask_tid { mask_tid(&raw_err) } else { raw_err };
     let log = CallLog::parse(&fs::read_to_string(&log_path).unwrap_or_default());
     let _ = fs::remove_file(&out_path);
     let _ = fs::remove_file(&err_path);
@@ -487,7 +491,8 @@ pub fn launch_program(
         }
     };
     let stdout = fs::read(&out_path).unwrap_or_default();
-    let stderr = mask_tid(&fs::read(&err_path).unwrap_or_default());
+    let raw_err = fs::read(&err_path).unwrap_or_default();
+    let stderr = if env.mask_tid { mask_tid(&raw_err) } else { raw_err };
     let log = CallLog::parse(&fs::read_to_string(&log_path).unwrap_or_default());
     let _ = fs::remove_file(&out_path);
     let _ = fs::remove_file(&err_path);
